@@ -171,7 +171,7 @@ func c06History(r gen.R, u uhppote.IUHPPOTE, cfg ClientCfg, serial uint32, other
 			prepare(op, target, a)
 			adapter.SafeCall(u, "SetAddress", target, a, adapter.Aux{})
 			hist = append(hist, fmt.Sprintf("SetAddress(%d, %d.%d.%d.%d)", target, ip[0], ip[1], ip[2], ip[3]))
-		case x < 9 || !allowDiscovery:
+		case x < 7 || !allowDiscovery:
 			ops := replyOps()
 			op := ops[r.Pick(len(ops))]
 			a, p := r.Args(op)
@@ -272,6 +272,9 @@ func c06Hook(c *Ctx) {
 			scripted = nil
 			if !hop.Discovery && !hop.NoReply {
 				scripted = validReply(r, hop, hs, ha)
+			}
+			if hop.Discovery && r.Pick(3) > 0 {
+				scripted = validReply(r, hop, serial, ha) // an earlier discovery finds the judged controller, which reports some address of its own
 			}
 		})
 		before := len(d.Invocations())
@@ -458,11 +461,15 @@ func c06Loopback(c *Ctx) {
 				if dv.state == "refusing" || fixedPort != 0 {
 					histIPs = nil // (two TCP calls in a row from one fixed port to one endpoint: the kernel refuses the second - TIME_WAIT)
 				}
-				hist := c06History(r, u, histCfg, serial, histIPs, i%40 == 7 && dv.state != "refusing", func(hop *rm.Op, hs uint32, ha rm.Vals) {
+				hist := c06History(r, u, histCfg, serial, histIPs, i%8 == 7 && dv.state != "refusing", func(hop *rm.Op, hs uint32, ha rm.Vals) {
 					remember(hop.Request(hs, ha))
 					cur.Lock()
 					cur.op, cur.serial, cur.args, cur.noise, cur.delay = hop, hs, ha, nil, 0
-					cur.reply = validReply(r, hop, hs+map[bool]uint32{true: 77, false: 0}[hop.Discovery], ha)
+					cur.reply = validReply(r, hop, hs, ha)
+					if hop.Discovery {
+						// an earlier discovery is answered by the judged controller itself, reporting whatever address it has (2 of 3), or by another one
+						cur.reply = validReply(r, hop, map[bool]uint32{true: serial, false: 77}[r.Pick(3) > 0], ha)
+					}
 					cur.Unlock()
 				})
 				if len(hist) > 0 {
